@@ -71,6 +71,22 @@ let () =
       | "signed" -> let x = int_of_string t.(2) in
           if x < 0 then "EXC Exception", "EXC Exception"
           else hex_of_big (c10_assign nn (n_of_int x)), pad_hex n (hex_of_n (N.modulo (n_of_int x) (N.pow (n_of_int 2) (c10_spec_width nn))))
+      | "default" -> hex_of_big (c10_assign nn N0), pad_hex n "0"
+      | "limits" -> let z = hex_of_big (c10_min nn) in "101111 2 " ^ z ^ z ^ z ^ z ^ z, "101111 2 " ^ String.concat "" (List.init 5 (fun _ -> pad_hex n "0"))
+      | "mixl" | "mixr" ->
+          let big = big_of_hex t.(3) and u = c10_assign nn (n_of_hex t.(4)) in
+          let (x, y) = if op = "mixl" then (big, u) else (u, big) in
+          let vx = c10_val x and vy = c10_val y in
+          let sp o = (match c10_spec_binop nn o vx vy with Some v -> pad_hex n (hex_of_n v) | None -> "EXC MathError") in
+          let fuel = nat_of_int (int_of_string t.(5)) in
+          (match t.(2) with
+           | "add" -> hex_of_big (c10_add x y), sp OpAdd
+           | "sub" -> hex_of_big (c10_sub x y), sp OpSub
+           | "mul" -> hex_of_big (c10_mul n2 x y), sp OpMul
+           | "div" -> res_str (c10_div fuel x y), sp OpDiv
+           | "mod" -> res_str (c10_mod fuel x y), sp OpMod
+           | _ -> "UNKNOWN-OP", "UNKNOWN-OP")
+      | "stream" -> let s = String.concat "" (List.map (fun c -> String.make 1 (char_of_ascii c)) (c10_print (a ()))) in s ^ "|42", pad_hex n (hex_of_n (va ())) ^ "|42"
       | "touint" -> string_of_int (int_of_n (c10_touint (a ()))), string_of_int (int_of_n (N.modulo (va ()) (N.pow (n_of_int 2) (n_of_int 32))))
       | "todouble" -> canon_me (c10_todouble (a ())), "VAL " ^ hex_of_n (va ())
       | "print" -> String.concat "" (List.map (fun c -> String.make 1 (char_of_ascii c)) (c10_print (a ()))), pad_hex n (hex_of_n (va ()))
